@@ -5,7 +5,7 @@
 From Coq Require Import ZArith List.
 From MomoCommon Require Import GenPrelude.
 From C16 Require Gen_Log2_64 Gen_Log2_32 Gen_SegSqrt Gen_SegCnst Fast Log2_Proofs SegMath SegSqrt_Proofs SegCnst_Proofs
-  SegModel SegModel_Inst Gen_ArrSqrt Gen_ArrCnst Gen_ArrLog Gen_ShiftSqrt Gen_ShiftCnst Gen_SegFacts Shift_Proofs Arr_Proofs Arr_Inst.
+  SegModel SegModel_Inst Gen_ArrSqrt Gen_ArrCnst Gen_ArrLog Gen_ShiftSqrt Gen_ShiftCnst Gen_ShiftXSqrt Gen_ShiftXCnst ShiftX_Proofs Gen_SegFacts Shift_Proofs Arr_Proofs Arr_Inst.
 From Coq Require String.
 Import String.StringSyntax ListNotations.
 Delimit Scope string_scope with string.
@@ -666,15 +666,32 @@ Theorem C16_sqrt_remove_n_from_facts : forall L, 0 <= L <= 62 -> forall alloc se
 Proof. exact Arr_Inst.sqrt_remove_n_from_facts. Qed.
 Print Assumptions C16_sqrt_remove_n_from_facts.
 
-(* sqrt: Insert(index, begin, end) with forward iterators and Insert(index, {...}) (both reach pvInsert #1: Dist, Reserve(mCount + count), the
-   range InsertNogrow = `count` AddBackNogrow calls as far as table and count are concerned): every old slot keeps its address *)
-Theorem C16_sqrt_range_insert_from_facts : forall L, 0 <= L <= 62 -> forall alloc segs n c (items : Z -> Z) index count,
-  Arr_Proofs.ginv (Gen_SegSqrt.GetSegItemIndexes L) SegModel_Inst.maxi (SegModel_Inst.SCq L) n c -> 0 <= count -> c + count < SegModel_Inst.maxi ->
-  exists g', Arr_Proofs.run (Gen_SegSqrt.GetSegItemIndexes L) (Gen_SegSqrt.GetIndex L) alloc (map Arr_Proofs.act_of Gen_SegFacts.seg_pvinsert_forward) index count 0 (Arr_Proofs.mkg segs n c items) = Ok g' /\
+(* sqrt: Insert(index, begin, end) with forward iterators and Insert(index, {...}) (both reach pvInsert #1), executed from the facts:
+   Dist, Reserve(mCount + count), then the REGENERATED range InsertNogrow (Gen_ShiftXSqrt.ShiftInsertRange; source range [it, it + count) outside
+   the array): every old slot keeps its address, cell index + k receives source element k, front unchanged, tail `count` higher, invariant kept *)
+Theorem C16_sqrt_range_insert_from_facts : forall L, 0 <= L <= 62 -> forall alloc segs n c (items : Z -> Z) index count it,
+  Arr_Proofs.ginv (Gen_SegSqrt.GetSegItemIndexes L) SegModel_Inst.maxi (SegModel_Inst.SCq L) n c -> 0 <= index <= c -> 0 <= count -> c + count < SegModel_Inst.maxi -> c + count <= it ->
+  exists g', Arr_Proofs.run (Gen_SegSqrt.GetSegItemIndexes L) (Gen_SegSqrt.GetIndex L) alloc (map Arr_Proofs.act_of Gen_SegFacts.seg_pvinsert_forward) index count it (Arr_Proofs.mkg segs n c items) = Ok g' /\
     Arr_Proofs.g_c g' = c + count /\ (forall k, k < n -> Arr_Proofs.g_segs g' k = segs k) /\ Arr_Proofs.ginv (Gen_SegSqrt.GetSegItemIndexes L) SegModel_Inst.maxi (SegModel_Inst.SCq L) (Arr_Proofs.g_n g') (c + count) /\
-    (forall i, 0 <= i < c -> Gen_ArrSqrt.pvGetItem (Gen_SegSqrt.GetSegItemIndexes L) (Arr_Proofs.g_segs g') (Arr_Proofs.g_n g') (c + count) i = Gen_ArrSqrt.pvGetItem (Gen_SegSqrt.GetSegItemIndexes L) segs n c i).
+    (forall i, 0 <= i < c -> Gen_ArrSqrt.pvGetItem (Gen_SegSqrt.GetSegItemIndexes L) (Arr_Proofs.g_segs g') (Arr_Proofs.g_n g') (c + count) i = Gen_ArrSqrt.pvGetItem (Gen_SegSqrt.GetSegItemIndexes L) segs n c i) /\
+    (forall j, j < index -> Arr_Proofs.g_items g' j = items j) /\
+    (forall j, index <= j < index + count -> Arr_Proofs.g_items g' j = items (it + (j - index))) /\
+    (forall j, index + count <= j < c + count -> Arr_Proofs.g_items g' j = items (j - count)).
 Proof. exact Arr_Inst.sqrt_range_insert_from_facts. Qed.
 Print Assumptions C16_sqrt_range_insert_from_facts.
+
+(* sqrt: Remove(filter) through the REGENERATED ArrayShifter::Remove(array, filter) (Gen_ShiftXSqrt.ShiftRemoveIf, filter = pred on values):
+   returns the number of elements satisfying the filter, the new count is the number of the others, the survivors are exactly the others IN
+   ORDER (ShiftX_Proofs.filt), the table is untouched and every remaining slot keeps its address, invariant kept *)
+Theorem C16_sqrt_remove_if_stable : forall L, 0 <= L <= 62 -> forall (pred : Z -> bool) segs n (m : nat) (items : Z -> Z), Arr_Proofs.ginv (Gen_SegSqrt.GetSegItemIndexes L) SegModel_Inst.maxi (SegModel_Inst.SCq L) n (Z.of_nat m) ->
+  exists items', Gen_ShiftXSqrt.ShiftRemoveIf pred items (Z.of_nat m) (Gen_SegSqrt.GetIndex L n 0) =
+      Ok (Z.of_nat m - Z.of_nat (length (ShiftX_Proofs.filt pred items m)), items', Z.of_nat (length (ShiftX_Proofs.filt pred items m))) /\
+    Arr_Proofs.ginv (Gen_SegSqrt.GetSegItemIndexes L) SegModel_Inst.maxi (SegModel_Inst.SCq L) n (Z.of_nat (length (ShiftX_Proofs.filt pred items m))) /\
+    (forall j, (j < length (ShiftX_Proofs.filt pred items m))%nat -> items' (Z.of_nat j) = nth j (ShiftX_Proofs.filt pred items m) 0) /\
+    (forall i, 0 <= i < Z.of_nat (length (ShiftX_Proofs.filt pred items m)) ->
+       Gen_ArrSqrt.pvGetItem (Gen_SegSqrt.GetSegItemIndexes L) segs n (Z.of_nat (length (ShiftX_Proofs.filt pred items m))) i = Gen_ArrSqrt.pvGetItem (Gen_SegSqrt.GetSegItemIndexes L) segs n (Z.of_nat m) i).
+Proof. exact Arr_Inst.sqrt_remove_if_stable. Qed.
+Print Assumptions C16_sqrt_remove_if_stable.
 
 (* sqrt: single-pass Insert (pvInsert #2 -> ArrayShifter::Insert: one InsertCrt per item; InsertCrt executed from its facts: handler,
    Reserve(mCount + 1), one-element shifter): after m items every slot that existed before the first keeps its address *)
@@ -717,15 +734,32 @@ Theorem C16_cnst_remove_n_from_facts : forall L, 0 <= L <= 62 -> forall alloc se
 Proof. exact Arr_Inst.cnst_remove_n_from_facts. Qed.
 Print Assumptions C16_cnst_remove_n_from_facts.
 
-(* cnst: Insert(index, begin, end) with forward iterators and Insert(index, {...}) (both reach pvInsert #1: Dist, Reserve(mCount + count), the
-   range InsertNogrow = `count` AddBackNogrow calls as far as table and count are concerned): every old slot keeps its address *)
-Theorem C16_cnst_range_insert_from_facts : forall L, 0 <= L <= 62 -> forall alloc segs n c (items : Z -> Z) index count,
-  Arr_Proofs.ginv (Gen_SegCnst.GetSegItemIndexes L) SegModel_Inst.maxi (SegModel_Inst.SCc L) n c -> 0 <= count -> c + count < SegModel_Inst.maxi ->
-  exists g', Arr_Proofs.run (Gen_SegCnst.GetSegItemIndexes L) (Gen_SegCnst.GetIndex L) alloc (map Arr_Proofs.act_of Gen_SegFacts.seg_pvinsert_forward) index count 0 (Arr_Proofs.mkg segs n c items) = Ok g' /\
+(* cnst: Insert(index, begin, end) with forward iterators and Insert(index, {...}) (both reach pvInsert #1), executed from the facts:
+   Dist, Reserve(mCount + count), then the REGENERATED range InsertNogrow (Gen_ShiftXSqrt.ShiftInsertRange; source range [it, it + count) outside
+   the array): every old slot keeps its address, cell index + k receives source element k, front unchanged, tail `count` higher, invariant kept *)
+Theorem C16_cnst_range_insert_from_facts : forall L, 0 <= L <= 62 -> forall alloc segs n c (items : Z -> Z) index count it,
+  Arr_Proofs.ginv (Gen_SegCnst.GetSegItemIndexes L) SegModel_Inst.maxi (SegModel_Inst.SCc L) n c -> 0 <= index <= c -> 0 <= count -> c + count < SegModel_Inst.maxi -> c + count <= it ->
+  exists g', Arr_Proofs.run (Gen_SegCnst.GetSegItemIndexes L) (Gen_SegCnst.GetIndex L) alloc (map Arr_Proofs.act_of Gen_SegFacts.seg_pvinsert_forward) index count it (Arr_Proofs.mkg segs n c items) = Ok g' /\
     Arr_Proofs.g_c g' = c + count /\ (forall k, k < n -> Arr_Proofs.g_segs g' k = segs k) /\ Arr_Proofs.ginv (Gen_SegCnst.GetSegItemIndexes L) SegModel_Inst.maxi (SegModel_Inst.SCc L) (Arr_Proofs.g_n g') (c + count) /\
-    (forall i, 0 <= i < c -> Gen_ArrSqrt.pvGetItem (Gen_SegCnst.GetSegItemIndexes L) (Arr_Proofs.g_segs g') (Arr_Proofs.g_n g') (c + count) i = Gen_ArrSqrt.pvGetItem (Gen_SegCnst.GetSegItemIndexes L) segs n c i).
+    (forall i, 0 <= i < c -> Gen_ArrSqrt.pvGetItem (Gen_SegCnst.GetSegItemIndexes L) (Arr_Proofs.g_segs g') (Arr_Proofs.g_n g') (c + count) i = Gen_ArrSqrt.pvGetItem (Gen_SegCnst.GetSegItemIndexes L) segs n c i) /\
+    (forall j, j < index -> Arr_Proofs.g_items g' j = items j) /\
+    (forall j, index <= j < index + count -> Arr_Proofs.g_items g' j = items (it + (j - index))) /\
+    (forall j, index + count <= j < c + count -> Arr_Proofs.g_items g' j = items (j - count)).
 Proof. exact Arr_Inst.cnst_range_insert_from_facts. Qed.
 Print Assumptions C16_cnst_range_insert_from_facts.
+
+(* cnst: Remove(filter) through the REGENERATED ArrayShifter::Remove(array, filter) (Gen_ShiftXSqrt.ShiftRemoveIf, filter = pred on values):
+   returns the number of elements satisfying the filter, the new count is the number of the others, the survivors are exactly the others IN
+   ORDER (ShiftX_Proofs.filt), the table is untouched and every remaining slot keeps its address, invariant kept *)
+Theorem C16_cnst_remove_if_stable : forall L, 0 <= L <= 62 -> forall (pred : Z -> bool) segs n (m : nat) (items : Z -> Z), Arr_Proofs.ginv (Gen_SegCnst.GetSegItemIndexes L) SegModel_Inst.maxi (SegModel_Inst.SCc L) n (Z.of_nat m) ->
+  exists items', Gen_ShiftXSqrt.ShiftRemoveIf pred items (Z.of_nat m) (Gen_SegCnst.GetIndex L n 0) =
+      Ok (Z.of_nat m - Z.of_nat (length (ShiftX_Proofs.filt pred items m)), items', Z.of_nat (length (ShiftX_Proofs.filt pred items m))) /\
+    Arr_Proofs.ginv (Gen_SegCnst.GetSegItemIndexes L) SegModel_Inst.maxi (SegModel_Inst.SCc L) n (Z.of_nat (length (ShiftX_Proofs.filt pred items m))) /\
+    (forall j, (j < length (ShiftX_Proofs.filt pred items m))%nat -> items' (Z.of_nat j) = nth j (ShiftX_Proofs.filt pred items m) 0) /\
+    (forall i, 0 <= i < Z.of_nat (length (ShiftX_Proofs.filt pred items m)) ->
+       Gen_ArrSqrt.pvGetItem (Gen_SegCnst.GetSegItemIndexes L) segs n (Z.of_nat (length (ShiftX_Proofs.filt pred items m))) i = Gen_ArrSqrt.pvGetItem (Gen_SegCnst.GetSegItemIndexes L) segs n (Z.of_nat m) i).
+Proof. exact Arr_Inst.cnst_remove_if_stable. Qed.
+Print Assumptions C16_cnst_remove_if_stable.
 
 (* cnst: single-pass Insert (pvInsert #2 -> ArrayShifter::Insert: one InsertCrt per item; InsertCrt executed from its facts: handler,
    Reserve(mCount + 1), one-element shifter): after m items every slot that existed before the first keeps its address *)
@@ -744,3 +778,8 @@ Theorem C16_cnst_removeback_stable : forall L, 0 <= L <= 62 -> forall segs n c k
   (forall i, 0 <= i < c - k -> Gen_ArrSqrt.pvGetItem (Gen_SegCnst.GetSegItemIndexes L) segs n (c - k) i = Gen_ArrSqrt.pvGetItem (Gen_SegCnst.GetSegItemIndexes L) segs n c i).
 Proof. exact Arr_Inst.cnst_removeback_stable. Qed.
 Print Assumptions C16_cnst_removeback_stable.
+
+(* the range / filter shifter translations of the two SegmentedArray instantiations are the same Gallina *)
+Theorem C16_shiftx_same_code : @Gen_ShiftXSqrt.ShiftInsertRange = @Gen_ShiftXCnst.ShiftInsertRange /\ @Gen_ShiftXSqrt.ShiftRemoveIf = @Gen_ShiftXCnst.ShiftRemoveIf.
+Proof. exact ShiftX_Proofs.same_code. Qed.
+Print Assumptions C16_shiftx_same_code.
